@@ -285,6 +285,26 @@ func analyseFunc(pk, fn string, fd *ast.FuncDecl, info *types.Info, F facts) {
 			}
 		}
 	}
+	// constant expressions of floating-point type other than plain float literals (an integer literal or a named constant
+	// used as a float: `x / 2`, `float64(math.MaxInt32)`, `math.MaxFloat64`), maximal ones only — phases 4, 5 and the top level
+	if pk == "internal/phase4" || pk == "internal/phase5" || pk == "autog" {
+		ast.Inspect(fd.Body, func(n ast.Node) bool {
+			e, ok := n.(ast.Expr)
+			if !ok {
+				return true
+			}
+			tv, ok := info.Types[e]
+			if !ok || tv.Value == nil {
+				return true
+			}
+			if b, ok := tv.Type.Underlying().(*types.Basic); ok && b.Info()&types.IsFloat != 0 {
+				if l, isLit := e.(*ast.BasicLit); !(isLit && l.Kind == token.FLOAT) {
+					F.add("floatConsts", where+": "+src(e))
+				}
+			}
+			return false
+		})
+	}
 	ast.Inspect(fd.Body, func(n ast.Node) bool {
 		switch t := n.(type) {
 		case *ast.AssignStmt:
@@ -431,7 +451,7 @@ func leanStr(s string) string {
 
 func emit(F facts) {
 	keys := []string{"globals", "globalWrites", "inits", "imports", "mapRanges", "mapCalls", "nondet", "sorts", "panics",
-		"unboundedLoops", "recursive", "idReads", "stringKeyedMaps", "topoWrites", "sizeReadsPhases123", "floatLits",
+		"unboundedLoops", "recursive", "idReads", "stringKeyedMaps", "topoWrites", "sizeReadsPhases123", "floatLits", "floatConsts",
 		"numConversions", "monitorCalls", "layoutMonitorStmts", "geomBodies", "callSeqs"}
 	var b strings.Builder
 	b.WriteString("/-! GENERATED by /verif/extract from /repo's working tree on every check run. Do not edit. -/\n\nnamespace Autog.Facts\n\n")
